@@ -78,7 +78,7 @@ pub struct WsConn {
     pub conn: ConnPlan,
 }
 
-pub fn gen_ws_conn(r: &mut Rng, nonce: &mut u64, port: u16, allow_faults: bool) -> ConnPlan {
+pub fn gen_ws_conn(r: &mut Rng, nonce: &mut u64, port: u16, allow_faults: bool, tls: bool) -> ConnPlan {
     let mut c = blank_conn(port);
     c.kind = ConnKind::Upgrade;
     c.start_ms = r.range(0, 40);
@@ -88,8 +88,22 @@ pub fn gen_ws_conn(r: &mut Rng, nonce: &mut u64, port: u16, allow_faults: bool) 
     }
     let my = *nonce;
     *nonce += 1;
-    let glen = *r.pick(&[0usize, 0, 1, 5, 64]);
+    let mut glen = *r.pick(&[0usize, 0, 1, 5, 64]);
     let block_mode = r.chance(1, 3);
+    // half of the handlers flush after every write; a third of those first
+    // send a long greeting which the client waits for in full before it
+    // says anything (what the handler wrote and flushed must arrive while
+    // the handler is waiting for its peer)
+    // (more often over TLS, where a session buffer sits between the handler
+    // and the socket)
+    let flush_mode = if tls { r.chance(3, 4) } else { r.chance(1, 2) };
+    let greet_first = flush_mode && if tls { r.chance(2, 3) } else { r.chance(1, 3) };
+    if greet_first {
+        let want = *r.pick(&[300usize, 5_000, 40_000, 200_000]);
+        // the pipe must be able to carry it in well under the waiting time
+        let fits = (c.s2c.cap as u64).saturating_mul(20_000 / c.s2c.lat_max.max(1)).min(1 << 20) as usize;
+        glen = r.usize_in(1, want).min(fits.max(1));
+    }
     let key = gen_key(r);
     // which elements are broken (bit set = broken)
     let broken: u32 = if r.chance(1, 2) { 0 } else { r.range(1, 15) as u32 };
@@ -97,7 +111,7 @@ pub fn gen_ws_conn(r: &mut Rng, nonce: &mut u64, port: u16, allow_faults: bool) 
     let mut tab = false;
     let mut headers: Vec<(String, Vec<u8>)> = vec![
         hdr("host", "sim"),
-        hdr("x-sim", &format!("{};0;0;0;{};{}", my, glen, if block_mode { 2 } else { 0 })),
+        hdr("x-sim", &format!("{};0;0;0;{};{}", my, glen, (if block_mode { 2 } else { 0 }) | (if flush_mode { 4 } else { 0 }))),
     ];
     // Connection
     if broken & 1 == 0 {
@@ -175,12 +189,15 @@ pub fn gen_ws_conn(r: &mut Rng, nonce: &mut u64, port: u16, allow_faults: bool) 
         // a handler reading fixed-size blocks is sent whole blocks
         let plen = if block_mode { plen - plen % crate::api::ws::BLOCK } else { plen };
         let payload = r.bytes(plen);
-        let early = if r.chance(1, 4) { r.usize_in(0, plen) } else { 0 };
+        let early = if !greet_first && r.chance(1, 4) { r.usize_in(0, plen) } else { 0 };
         let mut first = head.clone();
         first.extend_from_slice(&payload[..early]);
         c.steps.push(Step::Send { data: Blob(first), completes: Some(0) });
         if early == 0 || r.chance(1, 2) {
             c.steps.push(Step::AwaitResponses { count: 1, max_ms: 30_000 });
+        }
+        if greet_first {
+            c.steps.push(Step::AwaitRaw { n: glen as u64, max_ms: 60_000 });
         }
         let mut off = early;
         while off < plen {
@@ -299,7 +316,7 @@ pub fn gen_random(seed: u64, idx: u64) -> Plan {
             c.reqs.push(w.plan());
             conns.push(c);
         } else {
-            conns.push(gen_ws_conn(&mut r, &mut nonce, 9000 + i as u16, true));
+            conns.push(gen_ws_conn(&mut r, &mut nonce, 9000 + i as u16, true, tls));
         }
     }
     if tls {
@@ -418,6 +435,20 @@ pub fn check_ws_conn(
                         rule: format!("{prefix}.handler_not_entered"),
                         detail: format!("conn {ci} nonce {}: 101 sent but channel handler entered {} times", rq.nonce, entered),
                     });
+                }
+                if cp.steps.iter().any(|s| matches!(s, Step::AwaitRaw { .. })) {
+                    probes.push("greeting_awaited_before_speaking");
+                    if obs.raw_waits_timed_out > 0 {
+                        v.push(Violation {
+                            rule: format!("{prefix}.bytes_withheld"),
+                            detail: format!(
+                                "conn {ci} nonce {}: the handler wrote and flushed a greeting of {} bytes and then waited for its peer, but only {} of them had reached the client 60 s later",
+                                rq.nonce,
+                                greeting.0.len(),
+                                obs.raw.len().min(greeting.0.len())
+                            ),
+                        });
+                    }
                 }
                 let mut want = greeting.0.clone();
                 want.extend_from_slice(&payload.0);
